@@ -56,11 +56,16 @@ Explains(cfg, e) ==
          [] c.op = "lcp" -> /\ SingleSentinel(t) /\ n >= 2
                             /\ IsPerm(c.a.sa, n)
                             /\ SeqEq(r.lcp, LcpDef(t, c.a.sa), n + 1)
+                            \* the same array through iter() and get(i); get(n+1) = None (-99)
+                            /\ r.it = r.lcp /\ r.gets = r.lcp /\ r.len = n + 1 /\ r.oob = -99
          [] c.op = "sus" -> /\ SingleSentinel(t) /\ n >= 2
                             /\ SeqEq(r.sus, IF n <= 12 THEN SusDef(t) ELSE SusPairs(t), n)
+                            /\ r.sus_s = r.sus          \* the same through a sampled suffix array
          [] c.op = "sample" -> /\ c.a.s >= 1 /\ c.a.k >= 1
                                /\ r.v = c.a.sa
                                /\ r.oob = None
+                               \* clone / clone_from events: the original answers like the copy
+                               /\ ("v0" \in DOMAIN r) => r.v0 = c.a.sa
          [] OTHER -> FALSE
 
 \* machine-layer conformance (only evaluated when Explains holds): with fewer than three sentinel
